@@ -147,6 +147,8 @@ def run(ctx, rep):
     rep.rule('R-C17-4', 'changed split sizes set need_write, and the Q record carries them (R-C10-1/2)', 1)
     chsize_full_size_rule(P, rep, 'R-C17-3f')
     split_index_guard_rule(P, rep, 'R-C17-7')
+    from .carried import level_loop_index_rule
+    level_loop_index_rule(P, rep, 'R-C17-8')
     from .C08 import sticky_failure_rule
     sticky_failure_rule(P, rep, 'R-C17-6')
     rep.check(bool(im2) and bool(nw), 'R-C17-4', 'state_sync: is_modified => need_write', s.file, '', function='state_sync', construct='need_write')
